@@ -33,6 +33,8 @@ type C11Msg struct {
 	// direct engine only
 	PresetData string `json:"preset_data,omitempty"` // "" | header | wrong_type  (msg.ValidatorData set by a local publish)
 	Unset      string `json:"unset,omitempty"`       // "" | set_later | ctx_first : verifier not registered when the message arrives
+	// e2e engine only: the node under test publishes the header itself through Subscriber.Broadcast
+	Local bool `json:"local,omitempty"`
 }
 
 type C11Scenario struct {
@@ -75,7 +77,11 @@ func genC11E2E(t *rapid.T) C11Scenario {
 	n := rapid.IntRange(1, 6).Draw(t, "nmsgs")
 	var s C11Scenario
 	for i := 0; i < n; i++ {
-		s.Msgs = append(s.Msgs, genC11Msg(t, false))
+		m := genC11Msg(t, false)
+		if (m.Payload == "valid" || m.Payload == "bad_validate" || m.Payload == "wrong_chain") && rapid.IntRange(0, 3).Draw(t, "local") == 0 {
+			m.Local = true
+		}
+		s.Msgs = append(s.Msgs, m)
 	}
 	return s
 }
@@ -464,7 +470,29 @@ func runC11E2E(t *testing.T, s C11Scenario) (res Result) {
 				outcome[fmtHash(dec.Hash())] = m.Verifier
 				mu.Unlock()
 			}
-			if err := topicA.Publish(ctx, data); err != nil {
+			if m.Local {
+				// the node under test publishes the header itself; Broadcast attaches it to the message, the
+				// validator must still put it through Validate and the verifier
+				hdr := new(vh.Header)
+				if err := hdr.UnmarshalBinary(data); err != nil {
+					res.failf("HARNESS: local header does not decode: %v", err)
+					rcancel()
+					wg.Wait()
+					return
+				}
+				if dec == nil {
+					mu.Lock()
+					outcome[fmtHash(hdr.Hash())] = m.Verifier
+					mu.Unlock()
+				}
+				berr := sub.Broadcast(ctx, hdr)
+				if want == pubsub.ValidationAccept && berr != nil {
+					res.failf("message #%d (payload %s, verifier %s): Broadcast of a valid, verified header failed: %v", i, m.Payload, m.Verifier, berr)
+				}
+				if want != pubsub.ValidationAccept && berr == nil {
+					res.failf("message #%d (payload %s, verifier %s): Broadcast returned nil for a header that must be %sed", i, m.Payload, m.Verifier, vrName(want))
+				}
+			} else if err := topicA.Publish(ctx, data); err != nil {
 				res.failf("HARNESS: publish: %v", err)
 				rcancel()
 				wg.Wait()
@@ -497,14 +525,14 @@ func runC11E2E(t *testing.T, s C11Scenario) (res Result) {
 					inC = true
 				}
 			}
-			tag := fmt.Sprintf("message #%d (payload %s, verifier %s)", i, sn.m.Payload, sn.m.Verifier)
+			tag := fmt.Sprintf("message #%d (payload %s, verifier %s, local %v)", i, sn.m.Payload, sn.m.Verifier, sn.m.Local)
 			switch sn.want {
 			case pubsub.ValidationAccept:
 				if !inB {
 					res.failf("%s: valid and verified, but the subscription never yielded its header (rejected=%v %q)", tag, wasRejected, reason)
 				} else if !inC {
 					res.failf("%s: valid and verified, but it was not relayed to the next peer", tag)
-				} else if !delivered {
+				} else if !delivered && !sn.m.Local {
 					res.failf("%s: not traced as delivered", tag)
 				}
 			default:
@@ -513,6 +541,8 @@ func runC11E2E(t *testing.T, s C11Scenario) (res Result) {
 					res.failf("%s: delivered to the subscription although it must be %sed", tag, vrName(sn.want))
 				} else if inC {
 					res.failf("%s: relayed to the next peer although it must be %sed", tag, vrName(sn.want))
+				} else if sn.m.Local {
+					// a locally published message that fails validation is reported to the caller of Broadcast
 				} else if sn.want == pubsub.ValidationIgnore && reason != pubsub.RejectValidationIgnored {
 					res.failf("%s: soft verification failure must be ignored without penalty, traced as %q", tag, reason)
 				} else if sn.want == pubsub.ValidationReject && reason != pubsub.RejectValidationFailed {
